@@ -186,3 +186,77 @@ def is_generator(fn):
         if isinstance(x, (ast.Yield, ast.YieldFrom)):
             return True
     return False
+
+
+# --------------------------------------------------------------------------
+# forward substitution of single-definition temporaries (so that introducing or
+# inlining a named local does not change what a rule sees)
+# --------------------------------------------------------------------------
+import copy as _copy
+
+_sd_cache = {}
+
+
+def single_defs(fn):
+    """{name: value expr} for locals with exactly one binding in fn, that binding being a plain `name = <expr>`
+    (parameters, loop/with/except targets, tuple targets, augmented or repeated assignments are excluded)"""
+    if id(fn) in _sd_cache:
+        return _sd_cache[id(fn)]
+    from .cfg import func_params
+    params = set(func_params(fn))
+    count = {}
+    val = {}
+    for x in walk_no_nested(fn):
+        if isinstance(x, ast.Assign):
+            for t in x.targets:
+                for tt in _flat_targets(t):
+                    if isinstance(tt, ast.Name):
+                        count[tt.id] = count.get(tt.id, 0) + 1
+                        if len(x.targets) == 1 and tt is t:
+                            val[tt.id] = x.value
+        elif isinstance(x, (ast.AugAssign, ast.AnnAssign)):
+            if isinstance(x.target, ast.Name):
+                count[x.target.id] = count.get(x.target.id, 0) + 2
+        elif isinstance(x, (ast.For, ast.comprehension)):
+            for tt in _flat_targets(x.target):
+                if isinstance(tt, ast.Name):
+                    count[tt.id] = count.get(tt.id, 0) + 2
+        elif isinstance(x, ast.With):
+            for it in x.items:
+                if it.optional_vars is not None:
+                    for tt in _flat_targets(it.optional_vars):
+                        if isinstance(tt, ast.Name):
+                            count[tt.id] = count.get(tt.id, 0) + 2
+        elif isinstance(x, ast.ExceptHandler) and x.name:
+            count[x.name] = count.get(x.name, 0) + 2
+        elif isinstance(x, ast.NamedExpr) and isinstance(x.target, ast.Name):
+            count[x.target.id] = count.get(x.target.id, 0) + 2
+    out = {k: v for k, v in val.items() if count.get(k) == 1 and k not in params}
+    _sd_cache[id(fn)] = out
+    return out
+
+
+class _Subst(ast.NodeTransformer):
+    def __init__(self, sd, depth):
+        self.sd = sd
+        self.depth = depth
+
+    def visit_Name(self, n):
+        if isinstance(n.ctx, ast.Load) and n.id in self.sd and self.depth > 0:
+            v = _copy.deepcopy(self.sd[n.id])
+            # a temporary defined in terms of itself (x = f(x)) cannot occur here: single binding, not a parameter
+            return _Subst({k: w for k, w in self.sd.items() if k != n.id}, self.depth - 1).visit(v)
+        return n
+
+    def visit_Lambda(self, n):
+        return n
+
+
+def expand(node, fn, depth=6):
+    """copy of `node` with single-definition temporaries of `fn` replaced by their defining expressions"""
+    return _Subst(single_defs(fn), depth).visit(_copy.deepcopy(node))
+
+
+def xnorm(node, fn):
+    """normalised text of a node after forward substitution of temporaries"""
+    return norm(expand(node, fn))
